@@ -162,7 +162,9 @@ theorem resolve_id_of_no_key : ∀ (chain : List Anc) (x : String),
   | [], _, _ => rfl
   | a :: rest, x, h => by
     simp only [resolveChain, h a (List.mem_cons_self ..)]
-    exact resolve_id_of_no_key rest x (fun b hb => h b (List.mem_cons_of_mem _ hb))
+    split
+    · rfl
+    · exact resolve_id_of_no_key rest x (fun b hb => h b (List.mem_cons_of_mem _ hb))
 
 theorem keysDecl_lookup : ∀ {chain : List Anc}, KeysDecl chain → ∀ (x : String),
     (∀ a ∈ chain, a.remapped ≠ [] → x ∉ declaredBy a) → ∀ a ∈ chain, a.remapped.lookup x = none
@@ -234,7 +236,7 @@ theorem scope_step (chain : List Anc) (self0 : Anc) (h0 : self0.remapped = []) (
     (hl : names.length = syms.length) (hnd : names.Nodup)
     (hfresh : ∀ v ∈ names, v ∉ reservedSymbols (self0 :: chain) children ∧ v ≠ "")
     (hpar : ∀ x ∈ nonLocalSymbols (self0 :: chain), ∀ y ∈ nonLocalSymbols (self0 :: chain),
-      resolveChain chain x = resolveChain chain y → x = y) :
+      resolveChain (self0 :: chain) x = resolveChain (self0 :: chain) y → x = y) :
     InjOnRefs ({ self0 with remapped := syms.zip names } :: chain) := by
   have heff : effRefs ({ self0 with remapped := syms.zip names } :: chain) = effRefs (self0 :: chain) := by
     simp only [effRefs]
@@ -248,20 +250,19 @@ theorem scope_step (chain : List Anc) (self0 : Anc) (h0 : self0.remapped = []) (
     have hne : (v == "") = false := by simpa using (hfresh v hvn).2
     simp [resolveChain, hv, hne]
   have hres_non : ∀ x, x ∉ syms →
-      resolveChain ({ self0 with remapped := syms.zip names } :: chain) x = resolveChain chain x := by
+      resolveChain ({ self0 with remapped := syms.zip names } :: chain) x = resolveChain (self0 :: chain) x := by
     intro x hx
     have : (syms.zip names).lookup x = none := by
       cases hlk : (syms.zip names).lookup x with
       | none => rfl
       | some v => exact absurd (lookup_zip_some hlk).1 hx
-    simp [resolveChain, this]
+    simp [resolveChain, this, h0]
   have hreserved : ∀ y ∈ nonLocalSymbols (self0 :: chain),
-      resolveChain chain y ∈ reservedSymbols (self0 :: chain) children := by
+      resolveChain (self0 :: chain) y ∈ reservedSymbols (self0 :: chain) children := by
     intro y hy
     unfold reservedSymbols
     refine mem_sunion.2 (Or.inr ?_)
-    refine List.mem_map.2 ⟨y, hy, ?_⟩
-    simp [resolveChain, h0]
+    exact List.mem_map.2 ⟨y, hy, rfl⟩
   intro x hx y hy hxy
   rw [heff] at hx hy
   by_cases hxs : x ∈ syms <;> by_cases hys : y ∈ syms
@@ -290,5 +291,47 @@ theorem scope_step (chain : List Anc) (self0 : Anc) (h0 : self0.remapped = []) (
       by_contra hc
       exact hys ((hsyms y).2 ⟨hy, hc⟩)
     exact hpar x hxn y hyn hxy
+
+
+theorem lookup_mem' {l : List (String × String)} {k v : String} (h : l.lookup k = some v) : (k, v) ∈ l := by
+  induction l with
+  | nil => simp at h
+  | cons p l ih =>
+    obtain ⟨k', v'⟩ := p
+    simp only [List.lookup_cons] at h
+    split at h
+    · rename_i he
+      have : k = k' := by simpa using he
+      simp only [Option.some.injEq] at h
+      subst h; subst this
+      exact List.mem_cons_self ..
+    · exact List.mem_cons_of_mem _ (ih h)
+
+/-- what `resolve` can answer: the symbol itself, or a value some table of the chain stores under it -/
+theorem resolveChain_cases : ∀ (chain : List Anc) (s : String),
+    resolveChain chain s = s ∨ ∃ a ∈ chain, (s, resolveChain chain s) ∈ a.remapped
+  | [], s => Or.inl rfl
+  | a :: rest, s => by
+    unfold resolveChain
+    split
+    · rename_i r hl
+      split
+      · exact Or.inl rfl
+      · exact Or.inr ⟨a, List.mem_cons_self .., lookup_mem' hl⟩
+    · split
+      · exact Or.inl rfl
+      · rcases resolveChain_cases rest s with h | ⟨b, hb, hp⟩
+        · exact Or.inl h
+        · exact Or.inr ⟨b, List.mem_cons_of_mem _ hb, hp⟩
+
+/-- no replacement of the chain is the word `arguments` (a generated name can in principle be that word: nine letters of
+ID_CHARS, not a keyword; it needs more than 53^8 names in one scope) -/
+def ChainNoArgs (chain : List Anc) : Prop := ∀ a ∈ chain, ∀ p ∈ a.remapped, p.2 ≠ "arguments"
+
+theorem resolveChain_ne_arguments {chain : List Anc} (h : ChainNoArgs chain) {s : String} (hs : s ≠ "arguments") :
+    resolveChain chain s ≠ "arguments" := by
+  rcases resolveChain_cases chain s with e | ⟨a, ha, hp⟩
+  · rw [e]; exact hs
+  · exact h a ha _ hp
 
 end CalmVerif.Obf
